@@ -107,6 +107,7 @@ def prepareTimes (trunc : α → Int) (step : Step α) (tini tfin : α) : Except
       match prepareNumber δ tfin ((trunc ((tfin - tini) / δ)).toNat + 2) tini with
       | some l => .ok l
       | none => .error .nonterm
+    else if tfin < tini + δ then .ok [tini]     -- the first round already ends the loop (`time > tfin`), whatever the step
     else .error .nonterm
 
 /-- `if running_id > 0 and T[running_id - 1] >= t: running_id = 0` (requested instants may come in any
@@ -192,15 +193,18 @@ def spatialLoop (P : List (Fix α)) (S : List α) (sini sfin ds : α) : Nat → 
 def resampleSpatialLegs (trunc : α → Int) (P : List (Fix α)) (legs : List α) (ds : α) :
     Except Err (List (Fix α)) :=
   let S := cum legs
-  match S.head?, S.getLast?, P.head? with
-  | some sini, some sfin, some first =>
+  match S.head?, S.getLast? with
+  | some sini, some sfin =>
     if ds < 0 ∨ 0 < ds then
       let N := trunc ((sfin - sini) / ds)
-      match spatialLoop P S sini sfin ds N.toNat 1 0 with
-      | .error e => .error e
-      | .ok out => .ok (first :: out)
+      match P.head? with           -- `track.getFirstObs()` is read AFTER the division (an empty track with `ds == 0`: ZeroDivisionError)
+      | some first =>
+        match spatialLoop P S sini sfin ds N.toNat 1 0 with
+        | .error e => .error e
+        | .ok out => .ok (first :: out)
+      | none => .error .index
     else .error .zerodiv
-  | _, _, _ => .error .index
+  | _, _ => .error .index
 
 /-- `__resampleSpatial(track, ds)` -/
 def resampleSpatial (sqrt : α → α) (trunc : α → Int) (P : List (Fix α)) (ds : α) :
